@@ -28,7 +28,7 @@ func rowsRule(c *core.Ctx, r *core.Report, rule string) {
 	r.Analysed("analysis/dataflow.SummaryGraph.PopulateGraphFromSummary")
 	want := map[string]string{"addParamEdgeByPos": "Args", "addReturnEdgeByPos": "Rets"}
 	seen := map[string]bool{}
-	for _, ii := range core.InlinedInstrs(c, fn, 2, func(ins ssa.Instruction) bool {
+	for _, ii := range core.InlinedInstrs(c, fn, c.Depth(2), func(ins ssa.Instruction) bool {
 		call, ok := ins.(*ssa.Call)
 		if !ok {
 			return false
